@@ -267,7 +267,60 @@ var hostileStrings = []string{"", " ", "\x00", "\xff\xfe", "=", "========", "A",
 	"123456", "12345678", "6", "8", "10", "SHA1", "SHA256", "SHA512", "sha1", "MD5", "ſſſſſſſſ"}
 
 func drawStr(t *rapid.T, label string) ([]byte, bool) {
-	switch rapid.IntRange(0, 9).Draw(t, label+"K") {
+	switch rapid.IntRange(0, 12).Draw(t, label+"K") {
+	case 10, 11: // text of multi-byte characters whose byte length and character count lie on different sides of a limit
+		// (16..1024): code that tests len(s) and then cuts []rune(s), or the reverse, loses step exactly there;
+		// alone (kind 10) or in place of one token of a suite string / URL (kind 11)
+		unit := rapid.SampledFrom([]string{"\u00e9", "\u00df", "\u65e5", "\U0001F511", "a\u00e9", "\u65e5\u672c"}).Draw(t, label+"MU")
+		n := rapid.IntRange(1, 140).Draw(t, label+"MN")
+		if rapid.Bool().Draw(t, label+"MB") { // just past a power of two in bytes
+			lim := rapid.SampledFrom([]int{16, 32, 64, 128, 256, 512, 1024}).Draw(t, label+"ML")
+			n = lim/len(unit) + rapid.IntRange(0, 3).Draw(t, label+"MD")
+		}
+		junk := strings.Repeat("x", rapid.IntRange(0, 40).Draw(t, label+"MX")) + strings.Repeat(unit, n)
+		if rapid.IntRange(10, 11).Draw(t, label+"MK") == 10 {
+			return []byte(junk), true
+		}
+		base := rapid.SampledFrom([]string{"OCRA-1:HOTP-SHA1-6:QN08", "OCRA-1:HOTP-SHA256-8:C-QN08-PSHA1-S064-T1M", "otpauth://totp/ACME:alice?secret=JBSWY3DPEHPK3PXP&digits=6&algorithm=SHA1&period=30", "12345678"}).Draw(t, label+"MS")
+		toks := strings.FieldsFunc(base, func(r rune) bool { return strings.ContainsRune(":-/?&=", r) })
+		tok := rapid.SampledFrom(toks).Draw(t, label+"MT")
+		return []byte(strings.Replace(base, tok, junk, 1)), true
+	case 12: // a well-formed suite string or URL in which one number is replaced by a value that aliases an admissible one
+		// when it is narrowed to 8, 16 or 32 bits (6 + 256 = 262 digits), or spelt with a sign / leading zeros
+		base := rapid.SampledFrom([]string{"OCRA-1:HOTP-SHA1-6:QN08", "OCRA-1:HOTP-SHA256-8:C-QN08-PSHA1-S064-T1M", "OCRA-1:HOTP-SHA512-10:QH64-T30S", "OCRA-1:HOTP-SHA1-4:QA10-S128",
+			"otpauth://totp/ACME:alice?secret=JBSWY3DPEHPK3PXP&digits=6&algorithm=SHA1&period=30", "otpauth://hotp/ACME:alice?secret=JBSWY3DPEHPK3PXP&digits=8&algorithm=SHA256&counter=5"}).Draw(t, label+"AB")
+		var spans [][2]int // digit runs
+		for i := 0; i < len(base); {
+			if base[i] >= '0' && base[i] <= '9' {
+				j := i
+				for j < len(base) && base[j] >= '0' && base[j] <= '9' {
+					j++
+				}
+				spans = append(spans, [2]int{i, j})
+				i = j
+			} else {
+				i++
+			}
+		}
+		sp := rapid.SampledFrom(spans).Draw(t, label+"AS")
+		var v uint64
+		fmt.Sscan(base[sp[0]:sp[1]], &v)
+		var repl string
+		switch rapid.IntRange(0, 5).Draw(t, label+"AK") {
+		case 0:
+			repl = fmt.Sprint(v + 1<<8*uint64(rapid.IntRange(1, 3).Draw(t, label+"AM")))
+		case 1:
+			repl = fmt.Sprint(v + 1<<16)
+		case 2:
+			repl = fmt.Sprint(v + 1<<32)
+		case 3:
+			repl = "18446744073709551616"[:20-len(fmt.Sprint(v))] + fmt.Sprint(v) // v + 2^64-ish: 20 digits ending in v
+		case 4:
+			repl = rapid.SampledFrom([]string{"+", "-", "0", "00", "0x", " "}).Draw(t, label+"AP") + fmt.Sprint(v)
+		default:
+			repl = fmt.Sprint(int64(v) - 256)
+		}
+		return []byte(base[:sp[0]] + repl + base[sp[1]:]), true
 	case 0, 1, 2, 3:
 		return []byte(rapid.SampledFrom(hostileStrings).Draw(t, label+"H")), true
 	case 4:
@@ -361,6 +414,12 @@ func drawC10(t *rapid.T) c10Case {
 		c.Width = rapid.IntRange(0, 1<<20).Draw(t, "widthR")
 	}
 	ii := func(label string) int {
+		if rapid.IntRange(0, 3).Draw(t, label+"Alias") == 0 {
+			// an admissible small value plus or minus a multiple of 2^8 / 2^16 / 2^32: equal to it after a narrowing conversion
+			v := rapid.IntRange(0, 11).Draw(t, label+"AV")
+			w := rapid.SampledFrom([]int{1 << 8, 2 << 8, 1 << 16, 1 << 32, -(1 << 8), -(1 << 32)}).Draw(t, label+"AW")
+			return v + w
+		}
 		return rapid.SampledFrom([]int{-1 << 63, -1 << 31, -2, -1, 0, 1, 2, 3, 4, 5, 6, 7, 8, 9, 10, 11, 12, 60, 255, 256, 1 << 31, 1<<63 - 1}).Draw(t, label)
 	}
 	mask := rapid.IntRange(0, 31).Draw(t, "fields")
